@@ -126,7 +126,11 @@ func ruleMarkProvenance(c *Ctx, r *Rule) {
 	name := c.fnName(cm)
 	ev := cm.Params[1]
 	var marks []ssa.CallInstruction
-	for _, ci := range callsIn(cm) {
+	var body []ssa.CallInstruction // calls of Commit and of the function literals inside it
+	for _, f := range append([]*ssa.Function{cm}, allAnon(cm)...) {
+		body = append(body, callsIn(f)...)
+	}
+	for _, ci := range body {
 		if isMarkCall(ci) {
 			marks = append(marks, ci)
 		}
@@ -135,9 +139,9 @@ func ruleMarkProvenance(c *Ctx, r *Rule) {
 	// every non-constant leaf the function computes with comes from the event parameter's SourceID/Offset, or config.Topics
 	okSrc, okOff, okTopic := false, false, false
 	bad := ""
-	for _, ci := range callsIn(cm) {
+	for _, ci := range body {
 		f := calleeFunc(ci)
-		if f == nil || c.pkgOf(f) != "plugin/input/kafka" || f.Signature.Recv() != nil {
+		if f == nil || c.pkgOf(f) != "plugin/input/kafka" || f.Signature.Recv() != nil || f.Parent() != nil || len(ci.Common().Args) == 0 {
 			continue
 		}
 		a := ci.Common().Args[0]
@@ -155,8 +159,8 @@ func ruleMarkProvenance(c *Ctx, r *Rule) {
 			bad = "event." + fl
 		}
 	}
-	for _, b := range cm.Blocks {
-		for _, in := range b.Instrs {
+	for _, fn2 := range append([]*ssa.Function{cm}, allAnon(cm)...) {
+		for _, in := range allInstrs(fn2) {
 			if ia, ok := in.(*ssa.IndexAddr); ok {
 				if _, f, _, okf := loadedField(ia.X); okf && f == "Topics" {
 					// index is the unpacked topic index (extract #0 of the source-id unpacker)
